@@ -42,12 +42,12 @@ class RunInfo:
         """Write ``run_info.json``, the inputs and the defaults to the run folder."""
         if self.run_folder is None:
             return
-        self.dump()
         for input_name, value in self.inputs.items():
             input_path = _input_path(input_name, self.run_folder)
             dump(value, input_path)
         defaults_path = _defaults_path(self.run_folder)
         dump(self.defaults, defaults_path)
+        self.dump()  # last: an existing `run_info.json` implies complete inputs and defaults
 
     @classmethod
     def create(
@@ -163,8 +163,10 @@ class RunInfo:
             data[key] = {_maybe_tuple_to_str(k): v for k, v in data[key].items()}
         data["run_folder"] = str(data["run_folder"])
         data["defaults_path"] = str(self.defaults_path)
-        with path.open("w") as f:
+        tmp = path.with_name(f".{path.name}.tmp")
+        with tmp.open("w") as f:
             json.dump(data, f, indent=4)
+        tmp.replace(path)  # atomic: `run_info.json` is never observed partially written
 
     @classmethod
     def load(cls: type[RunInfo], run_folder: str | Path) -> RunInfo:
